@@ -11,19 +11,21 @@ package c20
 
 import (
 	"fmt"
+	"net"
 	"runtime"
 	"testing"
 	"time"
 
 	mycoria "github.com/mycoria/mycoria"
 	"github.com/mycoria/mycoria/config"
+	"github.com/mycoria/mycoria/m"
 	"github.com/mycoria/mycoria/mgr"
 
 	"mycoverif/core"
 	"mycoverif/ident"
-	"mycoverif/linkpair"
 	"mycoverif/node"
 	"mycoverif/simnet"
+	"mycoverif/simtcp"
 )
 
 func genStore(tp *core.Tape, i, n int, universe, secret string, idBase int) config.Store {
@@ -37,9 +39,23 @@ func genStore(tp *core.Tape, i, n int, universe, secret string, idBase int) conf
 	st.Router.Isolate = tp.Chance(1, 6)
 	st.System.DisableTun = true
 	st.System.DisableChromiumWorkaround = tp.Chance(1, 2)
-	st.Router.Listen = []string{fmt.Sprintf("sim://r%d:%d", i, 1+tp.Intn(60000))}
+	// Listeners on free loopback ports, in every spelling a peering URL allows. All simulated
+	// routers share the one loopback interface of the process, so ports are distinct.
+	listenURL := func(port int) string {
+		switch tp.Intn(4) {
+		case 0:
+			return fmt.Sprintf("tcp://127.0.0.1:%d", port)
+		case 1:
+			return fmt.Sprintf("tcp://[::1]:%d", port)
+		case 2:
+			return fmt.Sprintf("tcp://localhost:%d", port)
+		default:
+			return fmt.Sprintf("tcp:%d", port)
+		}
+	}
+	st.Router.Listen = []string{listenURL(1024 + i*2000 + tp.Intn(999))}
 	if tp.Chance(1, 4) {
-		st.Router.Listen = append(st.Router.Listen, fmt.Sprintf("sim://r%dalt:%d", i, 1+tp.Intn(60000)))
+		st.Router.Listen = append(st.Router.Listen, listenURL(1024+i*2000+1000+tp.Intn(999)))
 	}
 	if tp.Chance(1, 3) {
 		st.Router.IANA = []string{fmt.Sprintf("r%d.example.org", i)}
@@ -88,15 +104,37 @@ type inst struct {
 	up     bool
 }
 
+// connectURLFor spells a connect URL that reaches the given listen URL.
+func connectURLFor(tp *core.Tape, listen string) string {
+	u, err := m.ParsePeeringURL(listen)
+	if err != nil {
+		return listen
+	}
+	var hosts []string
+	switch u.Domain {
+	case "127.0.0.1", "localhost":
+		hosts = []string{"127.0.0.1", "localhost"}
+	case "::1":
+		hosts = []string{"[::1]", "localhost"}
+	default: // all interfaces
+		hosts = []string{"127.0.0.1", "[::1]", "localhost"}
+	}
+	return fmt.Sprintf("tcp://%s:%d", hosts[tp.Intn(len(hosts))], u.Port)
+}
+
 func run(e *core.Env) {
 	tp := e.Tape
 	e.StartClock()
 	node.CaptureStderr()
 	cn := simnet.NewConnNet(e)
-	fabric := linkpair.NewFabric(cn)
-	// One connection attempt takes 2..60 simulated milliseconds (shipped code re-dials at once,
-	// without back-off, when a freshly set-up link is refused while it has no other link).
-	fabric.DialLatency = time.Duration(2+tp.Intn(59)) * time.Millisecond
+	// The shipped TCP peering protocol runs on a simulated loopback interface (peering/ is
+	// compiled against simtcp instead of net). One connection attempt takes 2..60 simulated
+	// milliseconds (shipped code re-dials at once, without back-off, when a freshly set-up link
+	// is refused while it has no other link).
+	fabric := &simtcp.World{DialLatency: time.Duration(2+tp.Intn(59)) * time.Millisecond,
+		NewPair: func(name string) (net.Conn, net.Conn) { p := cn.NewPair(name); return p.A, p.B }}
+	simtcp.Install(fabric)
+	e.Cleanup(func() { simtcp.Install(nil) })
 	n := 2 + tp.Intn(2)
 	universe := []string{"", "uni-a"}[tp.Intn(2)]
 	secret := ""
@@ -117,7 +155,7 @@ func run(e *core.Env) {
 			from, to = to, from
 		}
 		edges = append(edges, edge{from, to})
-		stores[from].Router.Connect = append(stores[from].Router.Connect, stores[to].Router.Listen[0])
+		stores[from].Router.Connect = append(stores[from].Router.Connect, connectURLFor(tp, stores[to].Router.Listen[0]))
 	}
 	e.Logf("n=%d universe=%q secret=%v edges=%v", n, universe, secret != "", edges)
 
@@ -170,7 +208,6 @@ func run(e *core.Env) {
 			for _, mm := range []*mgr.Manager{in.State().Manager(), in.Peering().Manager(), in.Switch().Manager(), in.Router().Manager()} {
 				mm.SetWorkerErrorMgr(x.alerts)
 			}
-			in.Peering().AddProtocol("sim", fabric.Protocol())
 			running = append(running, x)
 		}
 		order := tp.Perm(n)
